@@ -6,8 +6,10 @@
    Vocabulary: [reads P toks es] = the tokens spell the data-card entries es
    (C12/ProofsExpand.v); [meaning Sc es None] = the numbers MCNP lets these
    entries stand for (C12/Spec.v); [cards_read] = the same for a list of cards;
-   [opt_imps P toks xs] = reading the option tokens of a cell card keyword by
-   keyword, the IMP keywords carry the values xs (C12/ProofsCells.v). *)
+   [opt_imps P toks es] = reading the option tokens of a cell card keyword by
+   keyword, the IMP keywords are the entries es = (particles named, value), in
+   order (C12/ProofsCells.v); [last_value p es] = the value of the last entry
+   naming particle p, [named es] = the particles named (C12/Spec.v). *)
 From Coq Require Import List NArith ZArith Bool String Ascii Reals.
 From T4V Require Import Base.Str Base.Scalar C12.Text C12.Model C12.Spec
      C12.ProofsExpand C12.ProofsText C12.ProofsCells C12.ProofsDeck.
@@ -60,14 +62,26 @@ Print Assumptions C12_importance_cards_uneven_refused.
 
 (* ---- cell cards ---- *)
 
-(* the IMP keywords of a cell card give the largest of their values; every
-   other keyword leaves the importance alone *)
+(* the IMP keywords of a cell card: the parser keeps, per particle, the value of
+   the last entry naming it (imp_of_entries = largest value of that dictionary);
+   every other keyword leaves the importance alone *)
 Theorem C12_keywords_importance :
-  forall (T : Type) (Sc : Scalar T) (P : prims T) (toks : list string) (xs : list T),
-    opt_imps Sc P toks xs ->
-    exists k, parse_kw Sc P toks O kws0 = Ok k /\ k_imp k = max_list Sc xs.
+  forall (T : Type) (Sc : Scalar T) (P : prims T) (toks : list string)
+         (es : list (imp_entry (T:=T))),
+    opt_imps Sc P toks es ->
+    exists k, parse_kw Sc P toks O kws0 = Ok k /\ k_imp k = imp_of_entries Sc es.
 Proof. exact @keywords_importance. Qed.
 Print Assumptions C12_keywords_importance.
+
+(* the dictionary the parser keeps is the Spec's reading: for every particle,
+   the value of the last entry naming it *)
+Theorem C12_particle_dictionary :
+  forall (T : Type) (p : string) (es : list (imp_entry (T:=T))),
+    dict_get String.eqb p (assign_all es []) = last_value p es.
+Proof.
+  intros T p es. rewrite get_assign_all. destruct (last_value p es); reflexivity.
+Qed.
+Print Assumptions C12_particle_dictionary.
 
 (* the option normalisation (blanks around ':' removed, lower(), '(' ')' '='
    turned into blanks, split()): for option text written as words (non-empty,
@@ -84,10 +98,11 @@ Print Assumptions C12_option_tokens_words.
    the cell's rank *)
 Theorem C12_importance_of_cell :
   forall (T : Type) (Sc : Scalar T) (P : prims T) (importances : list (option T)) (rank : nat)
-         (lat : option (list (Z * Z))) (mat geom opts : string) (xs : list T) (c : cell (T:=T)),
-    opt_imps Sc P (option_tokens opts) xs ->
+         (lat : option (list (Z * Z))) (mat geom opts : string) (es : list (imp_entry (T:=T)))
+         (c : cell (T:=T)),
+    opt_imps Sc P (option_tokens opts) es ->
     cell_worker Sc P importances rank lat mat geom opts = Ok c ->
-    match max_list Sc xs with
+    match imp_of_entries Sc es with
     | Some m => c_imp c = Some m
     | None => nth_error importances rank = Some (c_imp c)
     end.
@@ -151,51 +166,52 @@ Theorem C12_data_card_max_zero :
 Proof. exact data_card_zero_iff. Qed.
 Print Assumptions C12_data_card_max_zero.
 
-(* importances on the cell card (non-negative): the cell is skipped iff every
-   IMP keyword of its card gives zero *)
-Theorem C12_cell_card_max_zero :
+(* THE PROPERTY for importances on cell cards, any card - explicit, LIKE n BUT,
+   chains of LIKE: with o the options the chain resolves to (base options first,
+   BUT options appended) and es the IMP entries met in o, the cell is skipped
+   iff for every particle named the LAST entry naming it gives zero, i.e. iff
+   its importance is zero for every particle. A BUT importance replaces the one
+   of the card it is LIKE. *)
+Theorem C12_chain_zero_iff :
   forall (P : prims R) (imp_cards : list (string * list string)) (cards : list card)
          (lats : list (Z * list (Z * Z))) (cells : list (Z * cell (T:=R))) (skipped : list Z)
-         (r : nat) (key : Z) (mat geom opts : string) (xs : list R),
+         (r : nat) (key : Z) (b : body) (opts mat geom o : string) (es : list (imp_entry (T:=R))),
+    parse_cells RS P imp_cards cards lats = Ok (cells, skipped) ->
+    nth_error (dict_of Z.eqb cards) r = Some (key, (b, opts)) ->
+    resolve_like (S (List.length (dict_of Z.eqb cards))) (dict_of Z.eqb cards) b opts = Ok (mat, geom, o) ->
+    opt_imps RS P (option_tokens o) es -> es <> [] -> Forall (fun e => 0 <= snd e)%R es ->
+    (In key skipped <-> forall p, In p (named es) -> last_value p es = Some 0%R).
+Proof. exact chain_zero_iff. Qed.
+Print Assumptions C12_chain_zero_iff.
+
+(* explicit card *)
+Theorem C12_cell_card_zero_iff :
+  forall (P : prims R) (imp_cards : list (string * list string)) (cards : list card)
+         (lats : list (Z * list (Z * Z))) (cells : list (Z * cell (T:=R))) (skipped : list Z)
+         (r : nat) (key : Z) (mat geom opts : string) (es : list (imp_entry (T:=R))),
     parse_cells RS P imp_cards cards lats = Ok (cells, skipped) ->
     nth_error (dict_of Z.eqb cards) r = Some (key, (Explicit mat geom, opts)) ->
-    opt_imps RS P (option_tokens opts) xs -> xs <> [] -> nonneg xs ->
-    (In key skipped <-> all_zero xs).
+    opt_imps RS P (option_tokens opts) es -> es <> [] -> Forall (fun e => 0 <= snd e)%R es ->
+    (In key skipped <-> forall p, In p (named es) -> last_value p es = Some 0%R).
 Proof. exact cell_card_zero_iff. Qed.
-Print Assumptions C12_cell_card_max_zero.
+Print Assumptions C12_cell_card_zero_iff.
 
 (* the same on the text of the card: options written as words separated by one
    blank or one '=' sign, made of IMP keywords each followed by a number
    (scan_imps collects them) and of words no branch of the keyword dispatch
    reacts to *)
-Theorem C12_plain_card_max_zero :
+Theorem C12_plain_card_zero_iff :
   forall (P : prims R) (imp_cards : list (string * list string)) (cards : list card)
          (lats : list (Z * list (Z * Z))) (cells : list (Z * cell (T:=R))) (skipped : list Z)
          (r : nat) (key : Z) (mat geom : string) (ws : list (string * ascii)) (last : string)
-         (xs : list R),
+         (es : list (imp_entry (T:=R))),
     parse_cells RS P imp_cards cards lats = Ok (cells, skipped) ->
     nth_error (dict_of Z.eqb cards) r = Some (key, (Explicit mat geom, join ws last)) ->
     Forall (fun ws => word (fst ws) /\ sep_ok (snd ws)) ws -> word last ->
-    scan_imps P (map fst ws ++ [last]) = Some xs -> xs <> [] -> nonneg xs ->
-    (In key skipped <-> all_zero xs).
+    scan_imps P (map fst ws ++ [last]) = Some es -> es <> [] -> Forall (fun e => 0 <= snd e)%R es ->
+    (In key skipped <-> forall p, In p (named es) -> last_value p es = Some 0%R).
 Proof. exact plain_card_zero_iff. Qed.
-Print Assumptions C12_plain_card_max_zero.
-
-(* any card, explicit or LIKE n BUT (chains included): with o the options the
-   LIKE chain resolves to (base options first, BUT options appended), the cell
-   is skipped iff EVERY IMP keyword met in o gives zero - a BUT importance can
-   only keep or raise the importance of the card it is LIKE *)
-Theorem C12_chain_max_zero :
-  forall (P : prims R) (imp_cards : list (string * list string)) (cards : list card)
-         (lats : list (Z * list (Z * Z))) (cells : list (Z * cell (T:=R))) (skipped : list Z)
-         (r : nat) (key : Z) (b : body) (opts mat geom o : string) (xs : list R),
-    parse_cells RS P imp_cards cards lats = Ok (cells, skipped) ->
-    nth_error (dict_of Z.eqb cards) r = Some (key, (b, opts)) ->
-    resolve_like (S (List.length (dict_of Z.eqb cards))) (dict_of Z.eqb cards) b opts = Ok (mat, geom, o) ->
-    opt_imps RS P (option_tokens o) xs -> xs <> [] -> nonneg xs ->
-    (In key skipped <-> all_zero xs).
-Proof. exact chain_zero_iff. Qed.
-Print Assumptions C12_chain_max_zero.
+Print Assumptions C12_plain_card_zero_iff.
 
 (* the writer's test "key in skipped_cells" never fires on a converted cell:
    the two filters agree *)
@@ -218,30 +234,6 @@ Theorem C12_written_volumes :
     written_ids Sc cells skipped = conv_keys Sc cells.
 Proof. exact @written_ids_conv_keys. Qed.
 Print Assumptions C12_written_volumes.
-
-(* ---- where the model (= the code) departs from the property ---- *)
-
-(* "2 LIKE 1 BUT IMP:N=0" with "1 0 -1 IMP:N=1": the card's own importance is
-   zero, the cell is not skipped and is handed to the conversion *)
-Theorem C12_like_but_imp_refuted :
-  exists cells,
-    parse_cells RS wP [] like_deck [] = Ok (cells, []) /\
-    dict_get Z.eqb 2%Z like_deck = Some (Like 1, "imp:n=0") /\
-    opt_imps RS wP (option_tokens "imp:n=0") [0%R] /\
-    In 2%Z (conv_keys RS cells).
-Proof. exact like_but_imp_refuted. Qed.
-Print Assumptions C12_like_but_imp_refuted.
-
-(* "1 0 -1 IMP:N=1 NONU=1": importance 1, no U keyword, yet the cell lands in
-   universe 1 and is neither skipped nor handed to the conversion *)
-Theorem C12_nonu_refuted :
-  exists cells c,
-    parse_cells RS wP [] nonu_deck [] = Ok (cells, []) /\
-    option_tokens "imp:n=1 nonu=1" = ["imp:n"; "1"; "nonu"; "1"] /\
-    In (1%Z, c) cells /\ c_imp c = Some 1%R /\ c_u c = 1%Z /\
-    ~ In 1%Z (conv_keys RS cells).
-Proof. exact nonu_refuted. Qed.
-Print Assumptions C12_nonu_refuted.
 
 (* ---- non-vacuity ---- *)
 
@@ -268,7 +260,7 @@ Proof.
 Qed.
 
 (* a deck inside the hypotheses of C12_data_card_max_zero and
-   C12_cell_card_max_zero: two IMP cards with shorthand, a cell with an inert
+   C12_cell_card_zero_iff: two IMP cards with shorthand, a cell with an inert
    keyword, a cell with U=1 and IMP keywords *)
 Definition example_imp_cards : list (string * list string) :=
   [("imp:n", ["1"; "0"; "r"]); ("imp:p", ["0"; "0"; "1"])].
@@ -281,7 +273,7 @@ Example C12_example_deck :
   NoDup (map fst example_imp_cards) /\
   cards_read RS wP example_imp_cards [[1; 0; 0]; [0; 0; 1]]%R /\
   opt_imps RS wP (option_tokens "vol=1") [] /\
-  opt_imps RS wP (option_tokens "u=1 imp:n=0 imp:p=1") [0; 1]%R /\
+  opt_imps RS wP (option_tokens "u=1 imp:n=0 imp:p=1") [(["n"], 0%R); (["p"], 1%R)] /\
   exists cells, parse_cells RS wP example_imp_cards example_cards [] = Ok (cells, [20%Z]) /\
                 conv_keys RS cells = [10%Z].
 Proof.
@@ -304,22 +296,35 @@ Proof.
   - change (option_tokens "u=1 imp:n=0 imp:p=1") with ["u"; "1"; "imp:n"; "0"; "imp:p"; "1"].
     apply (oi_other RS wP "u" _ 1);
       [apply (consumes_u RS wP "u" "1" 1%R); reflexivity|].
-    cbn [skipn]. apply oi_imp; [reflexivity|reflexivity|].
-    apply oi_imp; [reflexivity|reflexivity|apply oi_nil].
+    cbn [skipn]. apply (oi_imp RS wP "imp:n" "0" 0%R); [reflexivity|reflexivity|].
+    apply (oi_imp RS wP "imp:p" "1" 1%R); [reflexivity|reflexivity|apply oi_nil].
   - eexists. split; [rcompute; reflexivity|rcompute; reflexivity].
 Qed.
 
-(* the hypotheses of C12_chain_max_zero on the LIKE witness: the chain resolves
-   to the base options followed by the BUT options, whose IMP values are 1, 0 *)
+(* the hypotheses of C12_chain_zero_iff on "2 LIKE 1 BUT IMP:N=0" with
+   "1 0 -1 IMP:N=1": the chain resolves to the base options followed by the BUT
+   options, the entries are n:1 then n:0, the last one for n is 0, and the model
+   skips cell 2 (the former defect like_but_imp_max, repaired by 0b05eba) *)
 Example C12_example_like :
   resolve_like (S (List.length (dict_of Z.eqb like_deck))) (dict_of Z.eqb like_deck) (Like 1) "imp:n=0"
   = Ok ("0", "-1", "imp:n=1 imp:n=0") /\
-  opt_imps RS wP (option_tokens "imp:n=1 imp:n=0") [1; 0]%R.
+  opt_imps RS wP (option_tokens "imp:n=1 imp:n=0") [(["n"], 1%R); (["n"], 0%R)] /\
+  last_value "n" [(["n"], 1%R); (["n"], 0%R)] = Some 0%R /\
+  exists cells, parse_cells RS wP [] like_deck [] = Ok (cells, [2%Z]) /\
+                conv_keys RS cells = [1%Z; 3%Z].
 Proof.
-  split; [reflexivity|].
+  split; [reflexivity|]. split; [|split; [reflexivity|exact like_deck_skipped]].
   change (option_tokens "imp:n=1 imp:n=0") with ["imp:n"; "1"; "imp:n"; "0"].
-  apply oi_imp; [reflexivity|reflexivity|]. apply oi_imp; [reflexivity|reflexivity|apply oi_nil].
+  apply (oi_imp RS wP "imp:n" "1" 1%R); [reflexivity|reflexivity|].
+  apply (oi_imp RS wP "imp:n" "0" 0%R); [reflexivity|reflexivity|apply oi_nil].
 Qed.
+
+(* "1 0 -1 IMP:N=1 NONU=1": NONU is not U (the former defect
+   keyword_with_u_read_as_universe, repaired by f85f992): the cell is converted *)
+Example C12_example_nonu :
+  exists cells, parse_cells RS wP [] nonu_deck [] = Ok (cells, []) /\
+                conv_keys RS cells = [1%Z; 2%Z].
+Proof. exact nonu_deck_converted. Qed.
 
 (* the hypotheses of C12_option_tokens_words on "imp:n=0 vol 3.5" *)
 Example C12_example_words :
